@@ -10,22 +10,22 @@ ASSUMPTIONS = [
 CONF = {
     "C18": {
         "rule": "rapid-generated histories (4..14 blocks of 1..4 transactions over all flows and admin types, ledger changes and injected faults, from genesis states with >=3 entries per registry); the raw transaction bytes of the generating run are recorded and replayed on fresh chain instances: twice sequentially, once after an unrelated history ran in the same process, three times concurrently on goroutines next to instances replaying another history, and (TestC18Proc) in a second OS process with GOMAXPROCS=1, another TZ/LANG and working directory; oracle: per-block store root hash (real rootmulti Commit), per-transaction code/log/events/response data, exported genesis, all 19 query responses and the raw KV dump are byte-identical across all replays and agree with the generating run; thorough runs under the race detector; non-trivial = history with >=10 successful transactions of >=4 kinds; distinct by op/outcome sequence",
-        "quick": {"rapid": [("TestC18", 150, 1), ("TestC18Proc", 40, 1)]},
+        "quick": {"rapid": [("TestC18", 100, 2), ("TestC18Proc", 30, 2)]},
         "thorough": {"rapid": [("TestC18", 400, 12), ("TestC18Proc", 200, 4)], "race": True},
     },
     "C20": {
         "rule": "rapid cases: a state reached from a regular genesis by 0..6 generated transactions, or (1/3) from a hostile genesis accepted by validation and initialisation (thresholds incl. 66076420 and 2^32-1, empty roles, odd-length registry entries), then 1..12 hostile inputs: (a/b) a valid message of one of the 25 types (all required per run) marshalled to the wire and mutated in <=2 fields with protowire (field dropped = absent amount/byte field, duplicated, truncated, retyped, hostile content: empty/short/long/10 kB/non-UTF-8/fold-alike strings, malformed from), executed through the real transaction pipeline (L2) or decoded and handed straight to the handler (L1, for inputs the transaction decoder would stop); (c) all 19 queries with mutated requests, hostile pagination (key+offset, huge limit/offset, reverse+key) and nil requests; (d) byte strings into both decoders; (e) CLI address strings (short, non-ASCII, non-base58, arbitrary unicode). Oracle: no panic (recover at L1/L0, SDK panic code 111222 at L2/queries). non-trivial = message/query input derived from a valid request by <=2 hostile changes; distinct by (kind, type, bytes)",
-        "quick": {"rapid": [("TestC20", 1500, 1)]},
+        "quick": {"rapid": [("TestC20", 1200, 2)]},
         "thorough": {"rapid": [("TestC20", 8000, 16)], "fuzz": [("FuzzWireMsg", 120), ("FuzzQuery", 90), ("FuzzCLIAddress", 60)]},
     },
     "C17": {
         "rule": "(i)+(iii) rapid-generated genesis values through the module's real JSON path (AppModuleBasic.ValidateGenesis, AppModule.InitGenesis/ExportGenesis): five keyed lists of size 0..8 with deliberately colliding keys in 1/3 of cases (same key, different payload), odd attester strings, denoms differing in case, tokens/addresses of any length, optional fields present/absent, empty roles, hostile scalars; oracle: validation must reject every genesis whose lists collide under the documented keys; for accepted+initialised ones export(init(g)) = g with documented defaults, lists as multisets. (ii) rapid histories (3..30 ops) on the real chain; at every 5th step and at the end export -> import into an empty chain -> raw key/value dump must be identical. non-trivial = genesis with a collision or a round-tripped genesis with non-empty registries, resp. history whose final state has used nonces, pairs and a moved counter or a pending owner; distinct by genesis JSON resp. op sequence. The listed known finding (pending owner has no genesis field) is matched by its exact signature, counted in excluded_known and the search continues behind it.",
-        "quick": {"rapid": [("TestC17Genesis", 1500, 1), ("TestC17", 200, 1)]},
+        "quick": {"rapid": [("TestC17Genesis", 1500, 2), ("TestC17", 200, 2)]},
         "thorough": {"rapid": [("TestC17Genesis", 20000, 8), ("TestC17", 1500, 8)], "fuzz": [("FuzzGenesisJSON", 120)]},
     },
     "C01": {
         "rule": "L0: rapid-generated (configuration, message, attestation plan) triples for the exported verifier: 1..8 (sometimes 16) enabled keys under six hex spellings plus decoys (garbage, compressed key, 64-byte key, second spelling, empty), threshold 1..entries, message 0..400 random bytes or well-formed, plan slots (signer enabled/disabled/never enabled; payload exact/bit-flipped/prefix/unrelated; v 0/1, 27/28 or raw; high-s twin), arrangement asc/desc/permutation, duplicate (same bytes, twin, respelled v), length edits (-k/+k bytes, one extra valid signature, one fewer), raw random bytes of length 65t, bit mutations of built attestations; oracle: ground truth by construction cross-checked against an independent reference verifier (decred recovery, x/crypto Keccak), enforced both ways (accept => reference accepts and >= t distinct enabled signers; reference accepts with canonical v => accept). L2: the same plans through receive-message and replace-message on the real chain with attesters and threshold moved by real transactions, including submissions signed before a rotation. non-trivial = attestation of exactly 65t bytes containing at least one individually valid signature of an enabled attester over the exact message; distinct by (plan, threshold, set size, spellings)",
-        "quick": {"rapid": [("TestC01", 4000, 1), ("TestC01L2", 300, 1)]},
+        "quick": {"rapid": [("TestC01", 4000, 2), ("TestC01L2", 300, 2)]},
         "thorough": {"rapid": [("TestC01", 20000, 12), ("TestC01L2", 1500, 4)], "fuzz": [("FuzzAttestation", 120)]},
     },
     "C16": {
@@ -36,78 +36,78 @@ CONF = {
     "C14": {
         "level": "fault_enumeration",
         "rule": "rapid histories of 2..7 rounds: configuration moves (send-side pause, max body size around 132, zero-address messenger, mint/burn pause, ledger pause/blacklist/allowance/minter) then a transfer under test (valid deposit of either variant, possibly with a 31/33-byte caller; valid module-addressed receive; deposit+receive in one transaction); its dependency calls are counted in a dry run on a discarded branch and EVERY non-empty subset of those calls (<=3 calls, <=7 subsets) is failed in turn, each as its own transaction through the real SDK pipeline, followed by the unfaulted transaction; oracle: any failed dependency call or late validation failure => error, and after the real rollback raw KV of both stores and the block's event list are as before; success => debit, burn and message (resp. mint) all effective; non-trivial = failure that hit after something was already moved or marked (effective earlier call, or nonce write); distinct by (case shape, op, fault subset, failure kind)",
-        "quick": {"rapid": [("TestC14", 300, 1)]},
+        "quick": {"rapid": [("TestC14", 300, 2)]},
         "thorough": {"rapid": [("TestC14", 8000, 16)]},
     },
     "C15": {
         "rule": "rapid histories (5..35 ops) over all 25 transaction types (success and failure of each is required in every run), ledger changes, faults, multi-message transactions; a recording wrapper around the KVStoreService handed to the keeper logs every Set/Delete key per transaction; oracle: recorded keys and committed key diff of a successful transaction are inside the documented write set for that type and argument, failed transactions leave both stores byte-identical, all 19 queries and genesis export record no write; non-trivial = first success (or failure) of a transaction type within a case; distinct by (case shape, type, outcome)",
-        "quick": {"rapid": [("TestC15", 150, 4)]},
+        "quick": {"rapid": [("TestC15", 150, 6)]},
         "thorough": {"rapid": [("TestC15", 5000, 16)], "cover": ("TestC15", 1500)},
     },
     "C19": {
         "rule": "rapid histories (4..28 ops) of registry transactions over colliding-prone keys (same token under other domains, tokens one byte apart, denoms differing in case, attester spellings of one key) from genesis states with >=3 entries per registry; after every transaction: exported registries vs reference maps, single-item queries for every live entry (token pairs under 6 hex spellings) and for every named-but-absent key, all scalar queries; every 4th step: pagination sweeps of the five list queries for every page size 1..n+1 in key-cursor and offset mode, forward and reverse, total with count_total; non-trivial = case with a removal, a registry of >=3 entries and a sweep; distinct by op/outcome sequence",
-        "quick": {"rapid": [("TestC19", 100, 3)]},
+        "quick": {"rapid": [("TestC19", 100, 4)]},
         "thorough": {"rapid": [("TestC19", 1500, 16)]},
     },
     "C10": {
         "rule": "(a) bounded-exhaustive: all 4^4 assignments of owner/attester-manager/pauser/token-controller over 4 accounts x pending owner in {absent, each account} x 18 privileged types (valid arguments) x 4 submitters, each run through the real message router on a branch of the committed state that is diffed and discarded; oracle: success <=> submitter holds the matching role, failure => no store changed; (b) rapid histories of role changes and privileged actions over a 7-account universe (previous holders arise naturally); non-trivial = submitter is authorised, or holds another role, or is a previous holder; distinct by (roles, pending, type, submitter) resp. (class, type, submitter)",
-        "quick": {"rapid": [("TestC10", 300, 1)], "plain": ["TestC10Enum"]},
+        "quick": {"rapid": [("TestC10", 300, 2)], "plain": ["TestC10Enum"]},
         "thorough": {"rapid": [("TestC10", 10000, 16)], "plain": ["TestC10Enum"]},
         "exhaustive_note": "enumeration part is complete for the stated bound",
     },
     "C11": {
         "rule": "(a) rapid histories (4..30 ops) of role transactions by all accounts with new-holder strings {universe account, fresh valid, upper-case bech32, wrong prefix, bad checksum, empty, long, non-ASCII} interleaved with all other transaction types; lifecycle automaton vs exported roles and pending-owner slot after every transaction; (b) bounded-exhaustive closure: all 324 role states over 3 accounts x every role action by every account; non-trivial = history with a supersession, an accept after the slot was cleared, or an accept attempt by the current owner",
-        "quick": {"rapid": [("TestC11", 600, 1)], "plain": ["TestC11Closure"]},
+        "quick": {"rapid": [("TestC11", 500, 2)], "plain": ["TestC11Closure"]},
         "thorough": {"rapid": [("TestC11", 8000, 16)], "plain": ["TestC11Closure"]},
     },
     "C12": {
         "rule": "rapid histories (4..30 ops): flag states installed by genesis (all four) and moved by pause/unpause transactions of all accounts; the eight user-facing flows with otherwise valid generated inputs; all 18 admin actions; table oracle (S/R blocks all eight; B/M blocks deposit, deposit-with-caller, replace-deposit, module receive only) in both directions, flag queries after every transaction; all 32 cells must be visited in every run; non-trivial = (flag state, flow, outcome) cell; distinct by cell",
-        "quick": {"rapid": [("TestC12", 400, 1)]},
+        "quick": {"rapid": [("TestC12", 400, 2)]},
         "thorough": {"rapid": [("TestC12", 6000, 16)]},
     },
     "C13": {
         "rule": "(a) closure by enumeration: every non-empty subset of a 4-key universe x threshold 1..n as genesis, every action (enable k, disable k, update 0..5, by manager and by a non-manager) through the real router, successors added until closed; reference transition function + invariant; (b) rapid histories (4..40 ops) over 8 keys x 6 spellings with decoys; non-trivial = transition on a boundary (n=t, n=1, t'=n, t'=n+1, t'=t, duplicate enable, unknown disable)",
-        "quick": {"rapid": [("TestC13", 300, 1)], "plain": ["TestC13Closure"]},
+        "quick": {"rapid": [("TestC13", 300, 2)], "plain": ["TestC13Closure"]},
         "thorough": {"rapid": [("TestC13", 8000, 16)], "plain": ["TestC13Closure"]},
     },
     "C04": {
         "rule": "rapid-generated L2 histories (3..30 ops mixing receives, replays, sends, deposits, both replacements, all 18 admin types, ledger changes, multi-message transactions, injected mint faults); amounts from {1,2^64-1,2^64,2^64+1,2^128,2^255,2^256-1,random}, recipients zero-padded / high bytes non-zero / equal to sender; pairs linked by transaction and through genesis with upper-case local token; both ledger denom modes; oracle: ledger call log + typed events vs the independently decoded message, running total minted vs sum of accepted burn messages; non-trivial = accepted burn message with amount >= 2^64 or recipient high bytes non-zero or recipient != sender; distinct by (amount, recipient, sender)",
-        "quick": {"rapid": [("TestC04", 400, 1)]},
+        "quick": {"rapid": [("TestC04", 400, 2)]},
         "thorough": {"rapid": [("TestC04", 8000, 16)]},
     },
     "C05": {
         "rule": "rapid-generated L2 histories (4..30 ops of deposits (both variants), sends, both replacements, receives, admin and ledger changes, faults, multi-message transactions; module account pre-funded in 1/4 of cases); oracle: per deposit exactly [transfer depositor->module, burn] of the stated coin and a module-sender message stating that amount; history: burned total = sum over distinct module-sender nonces, only depositors debited, module balance constant, other messages carry the submitter as sender; non-trivial = >=2 successful deposits by different depositors and >=1 replacement or failed deposit; distinct by op/outcome sequence",
-        "quick": {"rapid": [("TestC05", 400, 1)]},
+        "quick": {"rapid": [("TestC05", 400, 2)]},
         "thorough": {"rapid": [("TestC05", 8000, 16)]},
     },
     "C06": {
         "rule": "rapid-generated requests inside L2 histories (1..20 ops: sends, sends-with-caller, deposits, replacements of earlier messages; body lengths 0..max incl. boundaries; hostile 32-byte values); oracle: MessageSent bytes decoded by the reference codec vs the request, DepositForBurn event vs request/decoded message/original deposit's event; non-trivial = emitted message with non-zero caller or body >= 117 bytes or a deposit; distinct by emitted bytes",
-        "quick": {"rapid": [("TestC06", 600, 1)]},
+        "quick": {"rapid": [("TestC06", 500, 2)]},
         "thorough": {"rapid": [("TestC06", 10000, 16)]},
     },
     "C09": {
         "rule": "rapid-generated replacement attempts inside L2 histories (originals: own, someone else's, foreign-domain, any sent, forged own, forged module-sender, user-sent burn, short, own with tampered attestation; attester rotation and pausing in between); oracle: on success every required condition recomputed independently (reference verifier under current attesters), decoded replacement vs decoded original, empty write set / ledger log / store diff; non-trivial = successful replacement or rejection with exactly one required condition false; distinct by emitted bytes resp. (false condition, original class)",
-        "quick": {"rapid": [("TestC09", 400, 1)]},
+        "quick": {"rapid": [("TestC09", 400, 2)]},
         "thorough": {"rapid": [("TestC09", 10000, 16)]},
     },
     "C02": {
         "rule": "rapid-generated L2 histories (3..30 ops: fresh receives with 0..4 broken conditions, replays of earlier successes varying body/recipient/caller/attestation encoding/submitter/sender, pause, attester rotation, threshold change, un/re-link, messenger add/remove, multi-message transactions; genesis may pre-list pairs); after every transaction the single-item query of every tracked pair and its neighbours (swapped, +1, shifted), the full list query and the exported list are compared with the model set; non-trivial = history with a replay that is valid in every respect except the nonce of an earlier success; distinct by sequence of op labels and outcomes",
-        "quick": {"rapid": [("TestC02", 200, 2)]},
+        "quick": {"rapid": [("TestC02", 200, 3)]},
         "thorough": {"rapid": [("TestC02", 2500, 16)]},
     },
     "C03": {
         "rule": "rapid-generated receive attempts (a) bounded-exhaustive: all 2^12 subsets of {P1,P2,P4,P5,P6,P7,M1..M6} x 4 value realisations for module-addressed messages, all 2^6 subsets of the P conditions x 4 for other recipients, all 116 header truncations, each through the real message router on a discarded branch (success <=> empty subset; failure => no store changed); (b) inside L2 histories (admin/ledger ops change pause flags, attesters, pairs, messengers, allowance, blacklist, minter status); each attempt falsifies a drawn subset of {P2..P7,M2..M6} with several realisations per condition and P1/M1/M6 through state; oracle: success <=> all applicable conditions (recomputed from bytes and model state, attestation by the independent verifier); non-trivial = attempt with a >=116-byte message whose condition vector was not seen before in the case; distinct by condition vector",
-        "quick": {"rapid": [("TestC03", 500, 1)], "plain": ["TestC03Enum"]},
+        "quick": {"rapid": [("TestC03", 400, 2)], "plain": ["TestC03Enum"]},
         "thorough": {"rapid": [("TestC03", 8000, 16)], "plain": ["TestC03Enum"]},
     },
     "C08": {
         "rule": "(a) bounded-exhaustive: all 2^11 subsets of the eleven preconditions x 4 value realisations (with-caller variant; dependency failures by injected faults, empty balance and blacklist) through the real message router on a discarded branch; (b) rapid-generated deposits (both variants) inside L2 histories that move limits, max body size (131/132/133), messengers, pause flags, ledger pause/blacklist/minter/allowance and inject dependency faults; amounts from {-1,0,1,limit-1,limit,limit+1,2^64..2^256-1}; oracle: success <=> conjunction of the documented preconditions; non-trivial = amount within 1 of a configured limit, or max body size within 1 of 132, or >=2 preconditions false; distinct by (condition vector, amount, max body size)",
-        "quick": {"rapid": [("TestC08", 600, 1)], "plain": ["TestC08Enum"]},
+        "quick": {"rapid": [("TestC08", 500, 2)], "plain": ["TestC08Enum"]},
         "thorough": {"rapid": [("TestC08", 20000, 16)], "plain": ["TestC08Enum"]},
     },
     "C07": {
         "rule": "rapid-generated L2 histories (4..30 transactions over sends, sends-with-caller, deposits, deposits-with-caller, both replacements, multi-message transactions, receives and admin actions, from starting counters {0,1,2^32-1,2^32,2^63,2^64-100}); non-trivial = >=3 successful producers of >=2 types with >=1 failed transaction and >=1 successful replacement; distinct by (start, sequence of op labels and outcomes)",
-        "quick": {"rapid": [("TestC07", 500, 1)]},
+        "quick": {"rapid": [("TestC07", 400, 2)]},
         "thorough": {"rapid": [("TestC07", 10000, 16)]},
     },
 }
